@@ -3,6 +3,7 @@ import ast
 
 from ..core import astutil as A
 from ..core import atomic
+from ..core import match as M
 from ..core.model import dotted
 
 META = {
@@ -11,6 +12,30 @@ META = {
     "note": "",
 }
 MOD = "pkgcore.ebuild.digest"
+
+
+def _ml_calls(up, kind=None):
+    """calls of _manifest_line in Manifest.update (optionally: with the literal entry type ``kind``)"""
+    return [c for c in A.calls(up.node) if dotted(c.func) == "_manifest_line" and c.args and (kind is None or A.is_const(c.args[0], kind))]
+
+
+def _text_var(up):
+    """The local that accumulates the Manifest text, found by its role: the one name that is assigned / augmented with
+    expressions rendering entries through _manifest_line.  -> (name, [building statements])"""
+    builds = []
+    for st in A.body_walk(up.node):
+        if isinstance(st, ast.Assign) and len(st.targets) == 1:
+            tg = st.targets[0]
+        elif isinstance(st, ast.AugAssign):
+            tg = st.target
+        else:
+            continue
+        if isinstance(tg, ast.Name) and any(dotted(c.func) == "_manifest_line" for c in A.calls(st.value)):
+            builds.append((tg.id, st))
+    names = {n_ for n_, _ in builds}
+    if len(names) != 1:
+        return None, []
+    return names.pop(), [st for _, st in builds]
 
 
 def run(ctx):
@@ -24,7 +49,7 @@ def run(ctx):
     ctx.check("R1", up, len(hs) == 1, f"atomic-handle:{sorted(hs)}", "Manifest.update writes through one AtomicWriteFile",
               "Manifest.update no longer writes the Manifest through AtomicWriteFile: an interrupted write leaves a partial Manifest", node=up.node)
     for h, call in hs.items():
-        ctx.check("R1", up, A.unparse(call.args[0]) == "self.path", "atomic-target", "the atomic handle targets the Manifest path")
+        ctx.check("R1", up, bool(call.args) and M.pat("self.path").matches(call.args[0]) is not None, "atomic-target", "the atomic handle targets the Manifest path")
     atomic.check(ctx, "R1", up, list(hs), what="the Manifest")
     raw = [c for c in A.calls(up.node) if dotted(c.func) == "open" and len(c.args) > 1 and isinstance(c.args[1], ast.Constant) and "w" in str(c.args[1].value)]
     ctx.check("R1", up, not raw, "no-in-place-open", "the Manifest is never opened for writing in place")
@@ -40,23 +65,24 @@ def run(ctx):
                 ok = isinstance(it, ast.Call) and dotted(it.func) == "sorted"
                 ctx.check("R2", fn, ok, f"sorted-iter:{A.unparse(it)[:30]}", f"{what}: checksum columns are emitted in sorted order (`{A.unparse(it)}`)",
                           f"{what} emits checksum columns by iterating `{A.unparse(it)}`: the text depends on dict insertion order, so identical content can render differently and an up-to-date Manifest is rewritten", node=node)
-    data_exprs = [v for t, v, _ in A.assignments(up.node, "data")] + [st.value for st in A.body_walk(up.node) if isinstance(st, ast.AugAssign) and A.unparse(st.target) == "data"]
-    ctx.require(len(data_exprs) >= 3, "Manifest.update: `data` building expressions not found")
-    for e in data_exprs:
-        for comp in [x for x in A.walk(e) if isinstance(x, (ast.GeneratorExp, ast.ListComp))]:
+    data, builds = _text_var(up)
+    ctx.require(data is not None and len(builds) >= 3, "Manifest.update: `data` building expressions not found")
+    for st in builds:
+        for comp in [x for x in A.walk(st.value) if isinstance(x, (ast.GeneratorExp, ast.ListComp))]:
             for gen in comp.generators:
                 n += 1
                 ok = isinstance(gen.iter, ast.Call) and dotted(gen.iter.func) == "sorted" and any(k.arg == "key" for k in gen.iter.keywords)
                 ctx.check("R2", up, ok, f"sorted-iter:{A.unparse(gen.iter)[:40]}", f"entries are emitted in sorted order (`{A.unparse(gen.iter)[:50]}`)",
                           f"Manifest.update emits entries by iterating `{A.unparse(gen.iter)}` unsorted: the text depends on listing/input order", node=comp)
-    loops = [x for x in A.body_walk(up.node) if isinstance(x, ast.For) and any(isinstance(s, ast.AugAssign) and A.unparse(s.target) == "data" for s in x.body)]
+    loops = [x for x in A.body_walk(up.node) if isinstance(x, ast.For) and any(st in builds for st in x.body)]
     for lp in loops:
         n += 1
         ctx.check("R2", up, isinstance(lp.iter, ast.Tuple), f"fixed-type-order:{A.unparse(lp.iter)[:40]}", "the EBUILD/MISC blocks are emitted in a fixed literal order")
     ctx.check("R2", up, n >= 5, f"order-sites:{n}", f"{n} iteration sites feeding the Manifest text inspected")
-    t = A.unparse(up.node)
-    pos = [t.find("_manifest_line('AUX'"), t.find("_manifest_line('DIST'"), t.find("for mtype, inst in")]
-    ctx.check("R2", up, -1 not in pos and pos == sorted(pos), "block-order", "blocks: AUX, DIST, then the remaining types")
+    # block order: the statement emitting AUX, then the one emitting DIST, then the loop over the remaining types
+    aux_c, dist_c = _ml_calls(up, "AUX"), _ml_calls(up, "DIST")
+    pos = [A.stmt_of(aux_c[0]).lineno if len(aux_c) == 1 else -1, A.stmt_of(dist_c[0]).lineno if len(dist_c) == 1 else -1, loops[0].lineno if len(loops) == 1 else -1]
+    ctx.check("R2", up, -1 not in pos and pos[0] < pos[1] < pos[2], "block-order", "blocks: AUX, DIST, then the remaining types")
     ctx.floor("R2", 7)
 
     # ---- R3 up-to-date short cut -------------------------------------------------------------------------------
@@ -69,62 +95,118 @@ def run(ctx):
         late = None
     sc = late[0] if late else None
     if sc is not None:
-        _r3(ctx, up, sc, wr, t)
-    ctx.check("R3", up, "if self.thin and (not fetchables)" in t, "thin-no-distfiles", "thin Manifests without distfiles are not written at all")
+        _r3(ctx, up, sc, wr, data)
+    # the regenerated text that is compared is also what gets written (ties the role-located text variable to the handle)
+    wcalls = [c for c in A.calls(up.node) if isinstance(c.func, ast.Attribute) and c.func.attr in ("write", "writelines") and isinstance(c.func.value, ast.Name) and c.func.value.id in hs]
+    ctx.check("R3", up, bool(wcalls) and all(len(c.args) == 1 and isinstance(c.args[0], ast.Name) and c.args[0].id == data for c in wcalls), "written-text-is-compared-text",
+              "the text written through the atomic handle is the regenerated text the short cut compares")
+    ctx.check("R3", up, M.has(up.node, "if self.thin and not fetchables:\n    return False"), "thin-no-distfiles", "thin Manifests without distfiles are not written at all")
     ctx.floor("R3", 3)
-    _rest(ctx, P, up, ml, pm, loops, t)
+    _rest(ctx, P, up, ml, pm, loops)
 
 
-def _r3(ctx, up, sc, wr, t):
+def _is_text_equality(test, data):
+    """`<something>.read() == data` (either way round): equality of the existing text with the regenerated text"""
+    if not (isinstance(test, ast.Compare) and len(test.ops) == 1 and isinstance(test.ops[0], ast.Eq)):
+        return False
+    sides = [test.left, test.comparators[0]]
+    return any(isinstance(s, ast.Name) and s.id == data for s in sides) and any(A.call_attr(c) == "read" for s in sides for c in A.calls(s))
+
+
+def _r3(ctx, up, sc, wr, data):
     guards = [p for p in A.parents(sc) if isinstance(p, ast.If)]
-    eq = [g_ for g_ in guards if isinstance(g_.test, ast.Compare) and isinstance(g_.test.ops[0], ast.Eq) and "read()" in A.unparse(g_.test) and "data" in A.names_in(g_.test)]
+    eq = [g_ for g_ in guards if _is_text_equality(g_.test, data)]
     ctx.check("R3", up, len(eq) == 1, "decided-by-equality", "the short cut is taken when the existing text equals the regenerated text",
               "the up-to-date short cut is no longer decided by comparing the existing text with the regenerated text", node=sc)
     for g_ in guards:
         if g_ in eq:
             continue
         tt = A.unparse(g_.test)
-        bad = ("getsize" in tt or "st_size" in tt) and "len(" in tt
+        sub = list(ast.walk(g_.test))
+        byte_size = any((isinstance(x, ast.Attribute) and x.attr in ("getsize", "st_size")) or (isinstance(x, ast.Name) and x.id == "getsize") for x in sub)
+        char_count = any(isinstance(x, ast.Call) and dotted(x.func) == "len" for x in sub)
+        bad = byte_size and char_count
         ctx.check("R3", up, not bad, f"no-bytes-vs-chars-prefilter:{tt[:40]}", f"extra guard `{tt[:50]}` does not compare a byte size with a character count",
                   f"the short cut is pre-filtered by `{tt}`: a byte size is compared with a character count, so with any non-ASCII name an up-to-date Manifest is rewritten on every run", node=g_)
     ctx.check("R3", up, sc.lineno < wr[0].lineno, "shortcut-before-write", "the comparison happens before anything is written")
 
 
-def _rest(ctx, P, up, ml, pm, loops, t):
+def _rest(ctx, P, up, ml, pm, loops):
     # ---- R4 writer/parser agreement ------------------------------------------------------------------------------------
-    types = None
-    for tg, v, _ in A.assignments(pm.node, "types"):
-        if isinstance(v, ast.Dict):
-            types = [k.value for k in v.keys]
-    ctx.require(types, "parse_manifest: types table not found")
-    emitted = {c.args[0].value for c in A.calls(up.node) if dotted(c.func) == "_manifest_line" and isinstance(c.args[0], ast.Constant)}
+    # the types table of the parser: the one local bound to a dict literal keyed by string constants
+    tables = [(tg.id, v) for tg, v, _ in A.assignments(pm.node) if isinstance(tg, ast.Name) and isinstance(v, ast.Dict) and v.keys and all(isinstance(k, ast.Constant) and isinstance(k.value, str) for k in v.keys)]
+    ctx.require(len(tables) == 1, "parse_manifest: types table not found")
+    tname, tdict = tables[0]
+    types = [k.value for k in tdict.keys]
+    emitted = {c.args[0].value for c in _ml_calls(up) if isinstance(c.args[0], ast.Constant)}
     for lp in loops:
-        emitted |= {e.elts[0].value for e in lp.iter.elts if isinstance(e, ast.Tuple)}
+        if isinstance(lp.iter, ast.Tuple):
+            emitted |= {e.elts[0].value for e in lp.iter.elts if isinstance(e, ast.Tuple) and e.elts and isinstance(e.elts[0], ast.Constant)}
     ctx.check("R4", up, emitted == set(types), f"types-agree:{sorted(emitted ^ set(types))}", f"types written {sorted(emitted)} = types parsed {sorted(types)}",
               f"types written {sorted(emitted)} differ from the types parse_manifest accepts {sorted(types)}", node=up.node)
-    tl = A.unparse(ml.node)
-    ctx.check("R4", ml, "size = chksums.pop('size')" in tl, "size-implicit", "size is the third field, not a named checksum")
-    first = [v for tg, v, _ in A.assignments(ml.node) if isinstance(v, ast.JoinedStr) or isinstance(v, ast.List)]
-    ctx.check("R4", ml, "f'{chf.upper()} {filename} {size}'" in tl or "[chf.upper(), filename, str(size)]" in tl, "head-fields", "line head: TYPE filename size")
-    ctx.check("R4", ml, ".upper()} {get_handler(other_chf).long2str(" in tl or "other_chf.upper(), get_handler(other_chf).long2str(" in tl, "chf-fields", "then pairs CHF hex")
-    ctx.check("R4", ml, tl.rstrip().endswith("+ '\\n'"), "newline", "one entry per line")
-    tp = A.unparse(pm.node)
-    ctx.check("R4", pm, "types.get(line[0])" in tp and "d[line[1]] = [('size', int(line[2]))] + list(convert_chksums(zip(i, i)))" in tp and "i = iter(line[3:])" in tp, "parser-fields", "parser: type=field 0, name=field 1, size=field 2, pairs from field 3")
+    # writer: size popped out of the checksums, head `TYPE name size`, then `CHF hex` pairs, newline-terminated.
+    # Two renderings are accepted: f-string concatenation and a field list joined by one blank.
+    sz = M.one(ml.node, "$size = chksums.pop('size')")
+    ctx.check("R4", ml, sz is not None, "size-implicit", "size is the third field, not a named checksum")
+    E = dict(sz.env) if sz else {}
+    head = M.one(ml.node, "$acc = f'{chf.upper()} {filename} {$size}'", E)
+    joined = False
+    if head is None:
+        head = M.one(ml.node, "$acc = [chf.upper(), filename, str($size)]", E)
+        joined = head is not None
+    ctx.check("R4", ml, head is not None, "head-fields", "line head: TYPE filename size")
+    E = dict(head.env) if head else E
+    pair = "[$o.upper(), get_handler($o).long2str($_)]" if joined else "f' {$o.upper()} {get_handler($o).long2str($_)}'"
+    cols = M.one(ml.node, f"for $_ in $_:\n    $acc += {pair}", E)
+    ctx.check("R4", ml, cols is not None and cols["o"] in A.assigned_names(cols.node.target), "chf-fields", "then pairs CHF hex")
+    E = {k: v for k, v in (cols.env if cols else E).items() if k in ("acc",)}
+    rets = A.returns(ml.node)
+    line_pat = M.pat("' '.join($acc) + '\\n'" if joined else "$acc + '\\n'")
+    ctx.check("R4", ml, bool(rets) and all(r.value is not None and line_pat.matches(r.value, E) is not None for r in rets), "newline", "one entry per line")
+    # parser: whitespace split; type = field 0, name = field 1, size = field 2, pairs from field 3
+    PE = {"types": tname}
+    rd = M.one(pm.node, "$line = $rec.split()\n$d = $types.get($line[0])", PE)
+    PE = dict(rd.env) if rd else PE
+    ctx.check("R4", pm, rd is not None and M.has(pm.node, "$d = $types.get($line[0])\n$i = iter($line[3:])\n$d[$line[1]] = [('size', int($line[2]))] + list(convert_chksums(zip($i, $i)))", PE),
+              "parser-fields", "parser: type=field 0, name=field 1, size=field 2, pairs from field 3")
     cc = P.func(MOD, "convert_chksums")
-    tc = A.unparse(cc.node)
-    ctx.check("R4", cc, "chf = chf.lower()" in tc and "int(sum, 16)" in tc, "parser-chf-lower-hex", "checksum names are lower-cased, values parsed as hex")
-    ctx.check("R4", pm, "len(line) % 2 != 1" in tp and "if line[1] in d" in tp, "parser-rejects-malformed", "odd token counts and duplicate names are rejected")
+    low = M.one(cc.node, "for $chf, $sum in iterable:\n    $chf = $chf.lower()")
+    ctx.check("R4", cc, low is not None and M.has(cc.node, "yield $chf, int($sum, 16)", low.env), "parser-chf-lower-hex", "checksum names are lower-cased, values parsed as hex")
+    ctx.check("R4", pm, rd is not None and M.has(pm.node, "if len($line) % 2 != 1:\n    raise errors.ParseChksumError(...)", PE) and M.has(pm.node, "if $line[1] in $d:\n    raise errors.ParseChksumError(...)", PE),
+              "parser-rejects-malformed", "odd token counts and duplicate names are rejected")
     ctx.floor("R4", 7)
 
     # ---- R5 classification ----------------------------------------------------------------------------------------------
-    ctx.check("R5", up, "if pathname.startswith(filesdir):\n" in t and "pathname = pathname[len(filesdir):]" in t and "d = aux" in t, "files-are-aux", "files/ entries are AUX, named relative to files/")
-    ctx.check("R5", up, "elif obj.dirname == '/':" in t and "obj.location[-7:] == '.ebuild'" in t, "toplevel-ebuild-or-misc", "top-level files are EBUILD (*.ebuild) or MISC")
-    ctx.check("R5", up, "excludes = frozenset(['CVS', '.svn', 'Manifest'])" in t and "excludes.intersection(pathname.split('/'))" in t, "excludes", "VCS dirs and the Manifest itself are not covered")
-    ctx.check("R5", up, "if not obj.is_reg:\n" in t, "regular-files-only", "only regular files are covered")
-    ctx.check("R5", up, "d[pathname] = dict(obj.chksums)" in t, "keyed-by-name", "entries are keyed by name (listing order cannot matter)")
-    thin = [n_ for n_ in A.body_walk(up.node) if isinstance(n_, ast.If) and A.unparse(n_.test) == "not self.thin"]
-    ctx.check("R5", up, bool(thin) and any(isinstance(x, ast.For) and "iter_scan" in A.unparse(x.iter) for x in thin[0].body), "thin-skips-scan", "thin mode covers distfiles only")
-    ctx.check("R5", up, "os.path.basename(fetchable.filename), fetchable.chksums" in t, "dist-entries", "DIST entries: basename + the fetchable's checksums")
+    # the per-type dicts by their role: what is emitted under AUX, and what the literal (type, dict) pairs name
+    RE = {}
+    aux_c = _ml_calls(up, "AUX")
+    comp = A.enclosing(aux_c[0], (ast.GeneratorExp, ast.ListComp)) if len(aux_c) == 1 else None
+    am = M.one(comp.generators[0].iter, "$aux.items()") if comp is not None else None
+    if am:
+        RE["aux"] = am["aux"]
+    for lp in loops:
+        if isinstance(lp.iter, ast.Tuple):
+            for e in lp.iter.elts:
+                if isinstance(e, ast.Tuple) and len(e.elts) == 2 and isinstance(e.elts[1], ast.Name) and A.const(e.elts[0]) in ("EBUILD", "MISC"):
+                    RE[A.const(e.elts[0]).lower()] = e.elts[1].id
+    roles = all(k in RE for k in ("aux", "ebuild", "misc"))
+    scan = M.one(up.node, "for $obj in iter_scan(...):\n    $p = $obj.location", RE)
+    SE = dict(scan.env) if scan else dict(RE)
+    fa = M.one(up.node, "$fd = '/files/'\nfor $obj in iter_scan(...):\n    if $p.startswith($fd):\n        $d = $aux", SE) if scan else None
+    ctx.check("R5", up, roles and fa is not None and M.has(up.node, "if $p.startswith($fd):\n    $p = $p[len($fd):]", fa.env), "files-are-aux", "files/ entries are AUX, named relative to files/")
+    SE = dict(fa.env) if fa else SE
+    ctx.check("R5", up, roles and scan is not None and M.has(up.node, "for $obj in iter_scan(...):\n    if $_:\n        ...\n    elif $obj.dirname == '/':\n        if $obj.location[-7:] == '.ebuild':\n            $d = $ebuild\n        else:\n            $d = $misc", SE),
+              "toplevel-ebuild-or-misc", "top-level files are EBUILD (*.ebuild) or MISC")
+    ctx.check("R5", up, scan is not None and M.has(up.node, "$ex = frozenset(['CVS', '.svn', 'Manifest'])\n...\nif not self.thin:\n    for $obj in iter_scan(...):\n        if $ex.intersection($p.split('/')):\n            continue", SE),
+              "excludes", "VCS dirs and the Manifest itself are not covered")
+    ctx.check("R5", up, scan is not None and M.has(up.node, "for $obj in iter_scan(...):\n    if not $obj.is_reg:\n        continue", SE), "regular-files-only", "only regular files are covered")
+    ctx.check("R5", up, scan is not None and M.has(up.node, "for $obj in iter_scan(...):\n    $d[$p] = dict($obj.chksums)", SE), "keyed-by-name", "entries are keyed by name (listing order cannot matter)")
+    ctx.check("R5", up, M.has(up.node, "if not self.thin:\n    for $obj in iter_scan(...):\n        ..."), "thin-skips-scan", "thin mode covers distfiles only")
+    dist_c = _ml_calls(up, "DIST")
+    dcomp = A.enclosing(dist_c[0], (ast.GeneratorExp, ast.ListComp)) if len(dist_c) == 1 else None
+    dm = M.pat("_manifest_line('DIST', os.path.basename($f.filename), $f.chksums)").matches(dist_c[0]) if dcomp is not None else None
+    ctx.check("R5", up, dm is not None and len(dcomp.generators) == 1 and A.unparse(dcomp.generators[0].target) == dm["f"] and "fetchables" in A.names_in(dcomp.generators[0].iter),
+              "dist-entries", "DIST entries: basename + the fetchable's checksums")
     ctx.floor("R5", 7)
 
 
